@@ -77,6 +77,7 @@ type Elem struct {
 	Offset   []byte   // const expr without end (active)
 	Funcs    []uint32 // function indices; NullAt marks ref.null entries
 	NullAt   map[int]bool
+	GlobalAt map[int]bool // items that are "global.get Funcs[i]" (an expression item naming a global)
 }
 
 type Data struct {
@@ -317,7 +318,7 @@ func (m *Module) Encode() []byte {
 	if len(m.Elems) > 0 {
 		var b []byte
 		for _, e := range m.Elems {
-			useExprs := len(e.NullAt) > 0
+			useExprs := len(e.NullAt) > 0 || len(e.GlobalAt) > 0
 			// flags: bit0 passive/declarative, bit1 explicit table idx / declarative, bit2 exprs
 			switch {
 			case e.Mode == 0 && e.TableIdx == 0 && !useExprs:
@@ -352,6 +353,10 @@ func (m *Module) Encode() []byte {
 				if useExprs {
 					if e.NullAt[i] {
 						b = append(b, 0xd0, byte(FuncRef), 0x0b)
+					} else if e.GlobalAt[i] {
+						b = append(b, 0x23)
+						b = append(b, ULEB(uint64(f))...)
+						b = append(b, 0x0b)
 					} else {
 						b = append(b, 0xd2)
 						b = append(b, ULEB(uint64(f))...)
